@@ -77,8 +77,11 @@ theorem propagateNode_id (cfg : ReflectCfg) (n : Node) (s : Stack) (hn : noBound
     simp only [noBoundTemplate, Bool.and_eq_true, Bool.not_eq_eq_eq_not, Bool.not_true] at hn
     simp only [propagateNode]
     have hkids := propagateList_id cfg kids
-    by_cases ht : (tag == S "template") = true
-    · simp only [ht, Bool.true_and, ↓reduceIte] at hn ⊢
+    by_cases hc : (tag == S "template" && !hasAttr attrs (S "include")) = true
+    · simp only [hc, ↓reduceIte]
+      have ht : (tag == S "template") = true := by
+        simp only [Bool.and_eq_true] at hc; exact hc.1
+      simp only [ht, Bool.true_and] at hn
       have hnone : ∀ a ∈ attrs, isBoundKey a.1 = none := by
         intro a ha
         have := hn.1
@@ -89,8 +92,7 @@ theorem propagateNode_id (cfg : ReflectCfg) (n : Node) (s : Stack) (hn : noBound
         | some x => simp [hb] at h2
       rw [foldl_id_of_forall attrs _ s (by intro s0 a ha; simp only [hnone a ha])]
       exact hkids s hn.2
-    · have ht' : (tag == S "template") = false := by simpa using ht
-      simp only [ht', Bool.false_eq_true, ↓reduceIte]
+    · simp only [hc, Bool.false_eq_true, ↓reduceIte]
       exact hkids s hn.2
 theorem propagateList_id (cfg : ReflectCfg) (ns : List Node) (s : Stack) (hn : noBoundTemplate.noBoundTemplateList ns = true) : propagateList cfg s ns = s :=
   match ns, hn with
